@@ -1,0 +1,119 @@
+//go:build verif
+
+package serverinterceptors
+
+import (
+	"context"
+	"encoding/json"
+	"errors"
+	"fmt"
+	"testing"
+
+	"github.com/gotid/god/internal/verifdrv"
+	"github.com/gotid/god/lib/load"
+	"github.com/gotid/god/lib/logx"
+	"github.com/gotid/god/lib/stat"
+	"google.golang.org/grpc"
+	"google.golang.org/grpc/codes"
+	"google.golang.org/grpc/status"
+)
+
+// recording load.Shedder: scripted drop decision, counts what the integration reports
+type verifC09Shedder struct {
+	drop                                    bool
+	letIn, pass, fail, drops, inflight, dup int64
+}
+
+type verifC09Promise struct {
+	s        *verifC09Shedder
+	reported bool
+}
+
+func (s *verifC09Shedder) Allow() (load.Promise, error) {
+	if s.drop {
+		s.drops++
+		return nil, load.ErrServiceOverloaded
+	}
+	s.letIn++
+	s.inflight++
+	return &verifC09Promise{s: s}, nil
+}
+
+func (p *verifC09Promise) report() {
+	if p.reported {
+		p.s.dup++
+	}
+	p.reported = true
+	p.s.inflight--
+}
+
+func (p *verifC09Promise) Pass() { p.s.pass++; p.report() }
+func (p *verifC09Promise) Fail() { p.s.fail++; p.report() }
+
+// calls: [drop, outcome, arg]; outcome 0 ok | 1 status.Error(code arg) | 2 context.DeadlineExceeded itself |
+// 3 an error wrapping context.DeadlineExceeded | 4 panic(string) | 5 panic(error) | 6 panic(context.DeadlineExceeded)
+type verifC09Case struct {
+	Calls [][]int64 `json:"calls"`
+}
+
+// TestVerifDriverC09 nests UnarySheddingInterceptor (over a recording shedder) inside UnaryCrashInterceptor,
+// as rpc/internal/server.go + rpc/server.go do, and reports after every call
+// [let in, passes, fails, drops, in flight, duplicate reports, what came back]:
+// -1 nil | grpc code | 100 context.DeadlineExceeded itself | 101 wraps it | 200 ErrServiceOverloaded | 300 a panic escaped.
+func TestVerifDriverC09(t *testing.T) {
+	logx.Disable()
+	metrics := stat.NewMetrics("verif-c09")
+	verifdrv.Run(t, func(raw json.RawMessage) any {
+		var c verifC09Case
+		if err := json.Unmarshal(raw, &c); err != nil {
+			return map[string]any{"error": err.Error()}
+		}
+		sh := &verifC09Shedder{}
+		shed := UnarySheddingInterceptor(sh, metrics)
+		info := &grpc.UnaryServerInfo{FullMethod: "/verif/c09"}
+		rows := make([][]int64, 0, len(c.Calls))
+		for _, call := range c.Calls {
+			sh.drop = call[0] == 1
+			before := sh.letIn
+			handler := func(ctx context.Context, req any) (any, error) {
+				switch call[1] {
+				case 1:
+					return nil, status.Error(codes.Code(call[2]), "verif")
+				case 2:
+					return nil, context.DeadlineExceeded
+				case 3:
+					return nil, fmt.Errorf("verif: %w", context.DeadlineExceeded)
+				case 4:
+					panic("verif panic")
+				case 5:
+					panic(errors.New("verif panic error"))
+				case 6:
+					panic(context.DeadlineExceeded)
+				}
+				return "ok", nil
+			}
+			var err error
+			escaped, _ := verifdrv.Catch(func() {
+				_, err = UnaryCrashInterceptor(context.Background(), "req", info, func(ctx context.Context, req any) (any, error) {
+					return shed(ctx, req, info, handler)
+				})
+			})
+			back := int64(-1)
+			switch {
+			case escaped:
+				back = 300
+			case err == nil:
+			case err == context.DeadlineExceeded:
+				back = 100
+			case err == load.ErrServiceOverloaded:
+				back = 200
+			case errors.Is(err, context.DeadlineExceeded):
+				back = 101
+			default:
+				back = int64(status.Code(err))
+			}
+			rows = append(rows, []int64{sh.letIn - before, sh.pass, sh.fail, sh.drops, sh.inflight, sh.dup, back})
+		}
+		return map[string]any{"rows": rows}
+	})
+}
